@@ -34,7 +34,9 @@ PROPS["C08"] = {
     "assumptions": [],
 }
 
-PROPS["C08"]["units"] = {"quick": ["spirv_enums", "kani_masks"], "thorough": ["spirv_enums", "kani_masks", "kani_enums"]}
+PROPS["C08"]["units"] = {"quick": ["spirv_enums", "kani_masks", "decoder"], "thorough": ["spirv_enums", "kani_masks", "kani_enums", "decoder"]}
+# the typed decoder requests are where a number read from a binary is accepted or rejected as a value of each enum / mask type
+PROPS["C08"]["only_items"] = {"decoder": [r"Decoder::(?!new$|offset$|word$|words$|set_limit$|clear_limit$|has_limit$|limit_reached$|string$|id$|bit32$|bit64$|ext_inst_integer$)\w+$"]}
 PROPS["C08"]["engines"] = ["verus", "kani"]
 
 PROPS["C11"] = {
@@ -149,7 +151,7 @@ PROPS["C03"] = {
 
 PROPS["C10"] = {
     "title": "Context-dependent literal widths follow the types declared earlier",
-    "units": {"quick": ["parser_core", "parser_protocol", "tracker", "decoder", "table_core"], "thorough": ["parser_core", "parser_protocol", "tracker", "decoder", "table_core"]},
+    "units": {"quick": ["parser_core", "parser_protocol", "tracker", "decoder", "table_core", "assemble"], "thorough": ["parser_core", "parser_protocol", "tracker", "decoder", "table_core", "assemble"]},
     "only_items": {"parser_core": [r"parse_literal", r"parse_operands", r"parse_inst"], "parser_protocol": [r"Parser::(parse|new)$"]},
     "level": "proof",
     "technique": "Verus contract on the extracted parse_literal: words consumed and operand variant as a function of the tracker's abstract map only; fresh tracker per parser; tracker semantics by bounded Kani check",
@@ -214,8 +216,9 @@ PROPS["C17"] = {
 
 PROPS["C06"] = {
     "title": "Every module built with the Builder survives assemble-then-load unchanged",
-    "units": {"quick": ["builder_sections", "builder_ops", "builder_core", "loader", "method_sweep", "reflect"], "thorough": ["builder_sections", "builder_ops", "builder_core", "builder_gen", "loader", "assemble", "method_sweep", "reflect"]},
-    "only_items": {"loader": [r"Loader::consume_instruction"], "reflect": [r"grammar::reflect::"]},
+    "units": {"quick": ["builder_sections", "builder_ops", "builder_core", "loader", "method_sweep", "reflect", "assemble"], "thorough": ["builder_sections", "builder_ops", "builder_core", "builder_gen", "loader", "assemble", "method_sweep", "reflect"]},
+    "only_items": {"loader": [r"Loader::consume_instruction"], "reflect": [r"grammar::reflect::"],
+                   "assemble": [r"dr::(Block|Function|Instruction|ModuleHeader|Operand)::assemble_into"]},
     "engines": ["verus", "replay-bounded"],
     "level": "proof",
     "technique": "Verus: one placement obligation per instruction-emitting Builder method (1147, builder_sections) and one operand-order obligation per generated method (1096, builder_ops: lifted operand constructions vs the real grammar row, by(compute_only)); Builder::module bound/version contract; hand-written methods' emitted shapes; plus a bounded replay sweep calling every generated method once and round-tripping the module",
